@@ -99,6 +99,8 @@ pub fn make_ossl_ca_with(rng: &mut Rng, key: &PoolKey, forced: &[(&str, Asn1Type
 		} else {
 			match tyname {
 				"utf8" => gen_text(rng, StrKind::Utf8, 12).replace('\0', "x"),
+				// octets >= 0x80 in a T61String (OpenSSL copies them unchecked): rcgen may refuse the import, it must not re-interpret the name
+				"t61" if rng.chance(1, 3) => format!("{}\u{e9}", gen_host(rng)),
 				_ => gen_host(rng),
 			}
 		};
@@ -141,15 +143,20 @@ pub fn make_ossl_ca_with(rng: &mut Rng, key: &PoolKey, forced: &[(&str, Asn1Type
 	if let Some(p) = pathlen {
 		bc.pathlen(p);
 	}
-	b.append_extension(bc.build().map_err(e)?).map_err(e)?;
-	let ku: u16 = if rng.chance(2, 3) { 0b0110_0001 | (rng.below(2) as u16) << 2 } else { 0 };
+	// extensions are appended in a random order (rcgen writes KeyUsage before the key identifier, other tools do not)
+	let mut exts: Vec<openssl::x509::X509Extension> = vec![bc.build().map_err(e)?];
+	let no_crl_sign = rng.chance(1, 4);
+	let ku: u16 = if rng.chance(2, 3) { (if no_crl_sign { 0b0010_0001 } else { 0b0110_0001 }) | (rng.below(2) as u16) << 2 } else { 0 };
 	if ku != 0 {
 		let mut k = KeyUsage::new();
-		k.critical().digital_signature().key_cert_sign().crl_sign();
+		k.critical().digital_signature().key_cert_sign();
+		if !no_crl_sign {
+			k.crl_sign();
+		}
 		if ku & 4 != 0 {
 			k.key_encipherment();
 		}
-		b.append_extension(k.build().map_err(e)?).map_err(e)?;
+		exts.push(k.build().map_err(e)?);
 	}
 	let mut ekus = Vec::new();
 	if rng.chance(1, 3) {
@@ -160,12 +167,12 @@ pub fn make_ossl_ca_with(rng: &mut Rng, key: &PoolKey, forced: &[(&str, Asn1Type
 			x.client_auth();
 			ekus.push(EkuSpec::ClientAuth);
 		}
-		b.append_extension(x.build().map_err(e)?).map_err(e)?;
+		exts.push(x.build().map_err(e)?);
 	}
 	let ski = rng.chance(2, 3);
 	if ski {
 		let ext = SubjectKeyIdentifier::new().build(&b.x509v3_context(None, None)).map_err(e)?;
-		b.append_extension(ext).map_err(e)?;
+		exts.push(ext);
 	}
 	let mut sans = Vec::new();
 	if rng.chance(1, 3) {
@@ -178,7 +185,11 @@ pub fn make_ossl_ca_with(rng: &mut Rng, key: &PoolKey, forced: &[(&str, Asn1Type
 			sans.push(SanSpec::Ip("10.1.2.3".parse().unwrap()));
 		}
 		let ext = s.build(&b.x509v3_context(None, None)).map_err(e)?;
-		b.append_extension(ext).map_err(e)?;
+		exts.push(ext);
+	}
+	rng.shuffle(&mut exts);
+	for x in exts {
+		b.append_extension(x).map_err(e)?;
 	}
 	let (md, digest) = match key.sig {
 		SigAlg::Ed25519 => (null_md(), "none"),
@@ -188,7 +199,8 @@ pub fn make_ossl_ca_with(rng: &mut Rng, key: &PoolKey, forced: &[(&str, Asn1Type
 	};
 	b.sign(&pkey, md).map_err(e)?;
 	let der = b.build().to_der().map_err(e)?;
-	let huge_arc = subject.iter().any(|x| x.0.starts_with("2.25.") || x.0.ends_with("51616"));
+	// "rcgen may refuse this import": arcs that do not fit 64 bits, non-ASCII octets in a T61String
+	let huge_arc = subject.iter().any(|x| x.0.starts_with("2.25.") || x.0.ends_with("51616") || (x.1 == "t61" && !x.2.is_ascii()));
 	Ok(OsslCa {
 		der,
 		subject,
@@ -433,7 +445,8 @@ pub fn run_c03(ctx: &Ctx, pool: &[PoolKey]) {
 			let text = format!("issuer_key={} leaf_key={} issuer={:?} leaf={:?}", ik.label, lk.label, ispec, lspec);
 			let r = crate::guard(|| -> Result<(Certificate, Certificate), String> {
 				let ic = ispec.to_rcgen(None).self_signed(&ik.kp).map_err(|e| format!("issuer: {}", e))?;
-				let lc = lspec.to_rcgen(None).signed_by(&lk.kp, &ic, &ik.kp).map_err(|e| format!("leaf: {}", e))?;
+				// the three issuance routes in turn (key pair, SubjectPublicKeyInfo, parsed CSR)
+				let lc = crate::mon::certs::issue_via(i / 16, lspec.to_rcgen(None), lk, &ic, &ik.kp).map_err(|e| format!("leaf: {}", e))?;
 				Ok((ic, lc))
 			});
 			ctx.distinct(crate::util::fnv64(text.as_bytes()));
@@ -487,7 +500,7 @@ pub fn run_c03(ctx: &Ctx, pool: &[PoolKey]) {
 				leaf.use_authority_key_identifier_extension = true;
 				leaf.not_before = TimeSpec::utc(1_600_000_000).to_time().unwrap();
 				leaf.not_after = TimeSpec::utc(2_400_000_000).to_time().unwrap();
-				let lc = leaf.signed_by(&lk.kp, &again, &ik.kp).map_err(|e| format!("leaf: {}", e))?;
+				let lc = crate::mon::certs::issue_via(i, leaf, lk, &again, &ik.kp).map_err(|e| format!("leaf: {}", e))?;
 				Ok(Some((orig.der().to_vec(), lc)))
 			});
 			ctx.distinct(crate::util::fnv64(text.as_bytes()));
@@ -548,7 +561,7 @@ pub fn run_c03(ctx: &Ctx, pool: &[PoolKey]) {
 				leaf.use_authority_key_identifier_extension = true;
 				leaf.not_before = TimeSpec::utc(1_600_000_000).to_time().unwrap();
 				leaf.not_after = TimeSpec::utc(2_400_000_000).to_time().unwrap();
-				let lc = leaf.signed_by(&lk.kp, &again, &ik.kp).map_err(|e| format!("leaf: {}", e))?;
+				let lc = crate::mon::certs::issue_via(i, leaf, lk, &again, &ik.kp).map_err(|e| format!("leaf: {}", e))?;
 				Ok(Some((root.der().to_vec(), inter.der().to_vec(), lc)))
 			});
 			ctx.distinct(crate::util::fnv64(text.as_bytes()));
@@ -603,7 +616,7 @@ pub fn run_c03(ctx: &Ctx, pool: &[PoolKey]) {
 					leaf.use_authority_key_identifier_extension = j != 2;
 					leaf.not_before = TimeSpec::utc(ca.not_before.max(1_600_000_000) + 10).to_time().unwrap();
 					leaf.not_after = TimeSpec::utc(2_400_000_000).to_time().unwrap();
-					out.push(leaf.signed_by(&lk.kp, &again, &ik.kp).map_err(|e| format!("leaf: {}", e))?);
+					out.push(crate::mon::certs::issue_via(i + j as u64, leaf, lk, &again, &ik.kp).map_err(|e| format!("leaf: {}", e))?);
 				}
 				Ok(Some(out))
 			});
